@@ -93,6 +93,7 @@ def retryEnv (op : Nat → Outcome) (entry : Option Err) (ev : Nat → WaitEv) (
   set_ExpBackOff_BackOff := fun c v => { c with backOff := v }
   time_NewTimer_1 := fun w _ => (w, ())
   time_Timer_Stop_1 := fun w _ => (w, true)
+  recv_Chan_time_Time := fun w _ => (w, (), true)
   context_Context_Deadline_1 := fun w _ => (w, (), hd)
   ExpBackOff_nextWait_1 := fun w c n =>
     let v := c.nextWait n (rnd w.calls)
